@@ -122,37 +122,42 @@ func (w *OrderedWriter) Delete(ctx context.Context, namespace, key string) error
 }
 
 const (
-	deleteRetryAttempts = 6
-	deleteRetryBaseWait = 50 * time.Millisecond
+	deleteRetryBaseWait    = 50 * time.Millisecond
+	deleteRetryMaxWait     = 2 * time.Second
+	deleteRetryReportEvery = 6
 )
 
 // DeleteEventually is Delete for a key whose owner is gone for good (a
 // released session): when the Store reports an error the delete is repeated
-// in the background with exponential backoff instead of being given up,
-// because an image that survives the release brings the session back on the
-// next restart. The first attempt's error is returned; onGiveUp (may be nil)
-// is called if every retry failed as well. ctx cancels the retries.
-func (w *OrderedWriter) DeleteEventually(ctx context.Context, namespace, key string, onGiveUp func(error)) error {
+// in the background - exponential backoff up to deleteRetryMaxWait - until it
+// succeeds or ctx is cancelled. It is never given up: an image that survives
+// the release brings the session back on every later restart, and nothing
+// else would ever remove it. The first attempt's error is returned;
+// onStillFailing (may be nil) is called after every deleteRetryReportEvery
+// consecutive failures so the operator sees a store that stays broken.
+func (w *OrderedWriter) DeleteEventually(ctx context.Context, namespace, key string, onStillFailing func(error)) error {
 	err := w.Delete(ctx, namespace, key)
 	if err == nil {
 		return nil
 	}
 	go func() {
 		wait := deleteRetryBaseWait
-		last := err
-		for attempt := 0; attempt < deleteRetryAttempts; attempt++ {
+		for attempt := 1; ; attempt++ {
 			select {
 			case <-ctx.Done():
 				return
 			case <-time.After(wait):
 			}
-			if last = w.Delete(ctx, namespace, key); last == nil {
+			last := w.Delete(ctx, namespace, key)
+			if last == nil {
 				return
 			}
-			wait *= 2
-		}
-		if onGiveUp != nil {
-			onGiveUp(last)
+			if attempt%deleteRetryReportEvery == 0 && onStillFailing != nil {
+				onStillFailing(last)
+			}
+			if wait *= 2; wait > deleteRetryMaxWait {
+				wait = deleteRetryMaxWait
+			}
 		}
 	}()
 	return err
